@@ -69,7 +69,7 @@ def cases(tier, seed, shard, nshards):
                "body": rng.random() < 0.6, "susp": rng.choice([0, 1, 1, 2])}
     # histories: enumerated up to length 4 over a small alphabet, random beyond
     alphabet = [["reg", "acm"], ["reg", "cb"], ["aclose", 0], ["pop_all", 0], ["block", 0, False], ["block", 0, True],
-                ["enter_fail", 0], ["aclose", 1], ["reg", "popper"]]
+                ["enter_fail", 0], ["aclose", 1], ["reg", "popper"], ["aclose", 0, "except"]]
     maxlen = 4 if tier == "quick" else 5
     for n in range(1, maxlen + 1):
         for hist in itertools.product(alphabet, repeat=n):
@@ -90,7 +90,7 @@ def cases(tier, seed, shard, nshards):
             elif r < 0.5:
                 ops.append(["enter_fail", k])
             elif r < 0.65:
-                ops.append(["aclose", k])
+                ops.append(["aclose", k] + ([rng.choice(["except", "finally"])] if rng.random() < 0.4 else []))
             elif r < 0.8:
                 ops.append(["pop_all", k])
                 nstacks += 1
@@ -464,7 +464,23 @@ def exec_history(ops, factory):
                         log.append(("enter-raised", str(x)))
                 elif op[0] == "aclose":
                     k = op[1] if op[1] < len(stacks) else 0
-                    await stacks[k].aclose()
+                    where = op[2] if len(op) > 2 else None
+                    if where == "except":
+                        # closing the stack while an unrelated exception is being handled: still a NORMAL end
+                        try:
+                            raise E("unrelated")
+                        except E:
+                            await stacks[k].aclose()
+                    elif where == "finally":
+                        try:
+                            try:
+                                raise E("unrelated")
+                            finally:
+                                await stacks[k].aclose()
+                        except E:
+                            pass
+                    else:
+                        await stacks[k].aclose()
                 elif op[0] == "pop_all":
                     k = op[1] if op[1] < len(stacks) else 0
                     stacks.append(stacks[k].pop_all())
